@@ -106,10 +106,11 @@ mutual
     | .selFromW _ _ _ w => szV w + 1
     | .while_ e b => szV e + szB b + 2
     | .if_ e b _ _ => szV e + szB b + 2
+    | .forEach _ _ b => szB b + 2
     | _ => 1
   def szB : Block → Nat
     | .nil => 1
-    | .cons s rest => szS s + szB rest + 1
+    | .cons s rest => max (szS s) (szB rest) + 1
 end
 
 /-- what later rows must NOT do for the rows of ONE statement (index `lo`, rows up to `hi`) to read back the same:
@@ -155,7 +156,7 @@ structure StmtSpec (fc : FCtx) (prev : Option Nat) (s : Stmt) (st : St) : Prop w
   ok0 : st.ok = true
   fst : (buildStmt fc prev s st).1 = st.pop.length
   grows : ∃ d' : List Row, (buildStmt fc prev s st).2.pop = st.pop ++ (.smt (curBlkD st.scopes) prev :: d') ∧
-    szS s ≤ d'.length ∧
+    szS s ≤ d'.length + 1 ∧
     (∀ x ∈ d', (∀ k, x.smtOf = some k → st.pop.length ≤ k) ∧
       (∀ b' p, x = .smt b' p → (b' = curBlkD st.scopes ∨ st.pop.length < b') ∧ ∀ k, p = some k → st.pop.length < k) ∧
       (∀ k ∈ ikeys x, st.pop.length ≤ k))
@@ -892,6 +893,7 @@ mutual
   def coreS : Stmt → Bool
     | .while_ e b => coreE e && coreB b
     | .if_ e b .nil .none => coreE e && coreB b
+    | .forEach v sv b => v != "self" && sv != "self" && coreB b
     | s => coreS0 s
   def coreB : Block → Bool
     | .nil => true
@@ -970,6 +972,66 @@ def okAll (fc : FCtx) : Option Nat → Block → St → Bool
   | prev, .cons s rest, st =>
     (buildStmt fc prev s st).2.ok && okAll fc (some (buildStmt fc prev s st).1) rest (buildStmt fc prev s st).2
 
+/-- `accept_ForEachNode` between the ACT_SMT and the block: the loop variable (looked up, or declared as an instance
+    handle of the set's class), the set variable, its class -/
+def fePre (fc : FCtx) (v sv : String) (M : St) : (Nat × St) × Nat × String :=
+  let found := lookupVar fc v (M.guard (v != "self"))
+  let set := needVar fc sv found.2
+  let kl := (setClass set.2.pop set.1).getD ""
+  let x := match found.1 with
+    | some var => (var, set.2.guard (setClass set.2.pop set.1).isSome)
+    | none => newVar v (fun i => .vint i kl) (set.2.guard (setClass set.2.pop set.1).isSome)
+  (x, set.1, kl)
+
+theorem buildStmt_forEach (fc : FCtx) (prev : Option Nat) (v sv : String) (b : Block) (st : St) :
+    buildStmt fc prev (.forEach v sv b) st = (st.pop.length,
+      ((popScope (buildStmts fc none b (pushScope (.blk (fePre fc v sv (newSmt prev st).2).1.2.pop.length)
+        ((fePre fc v sv (newSmt prev st).2).1.2.new (.blk false)).2))).new
+        (.for_ st.pop.length (fePre fc v sv (newSmt prev st).2).1.2.pop.length (fePre fc v sv (newSmt prev st).2).1.1
+          (fePre fc v sv (newSmt prev st).2).2.1 (fePre fc v sv (newSmt prev st).2).2.2)).2) := by
+  simp only [buildStmt, withBlock, fePre, newSmt_fst]
+  first | rfl | (congr 2 <;> (split <;> rfl))
+
+theorem fePre_cases {fc : FCtx} {v sv : String} {M : St} (hok : (fePre fc v sv M).1.2.ok = true) (hv : v ≠ "self")
+    (hsv : sv ≠ "self") :
+    ∃ y, findSym M.scopes sv = some y ∧
+      ((∃ xv, findSym M.scopes v = some xv ∧ fePre fc v sv M =
+          ((xv, M.guard (setClass M.pop y).isSome), y, (setClass M.pop y).getD "")) ∨
+       (findSym M.scopes v = none ∧ fePre fc v sv M =
+          (newVar v (fun i => .vint i ((setClass M.pop y).getD "")) (M.guard (setClass M.pop y).isSome), y,
+            (setClass M.pop y).getD ""))) := by
+  have hg : M.guard (v != "self") = M := by simp [St.guard, hv]
+  have hs : (v == "self") = false := by simpa using hv
+  unfold fePre at hok
+  rw [hg] at hok
+  cases hc : (canonName v != v || lowerStr v == "sender") with
+  | true =>
+    exfalso
+    simp only [lookupVar, hc, if_true] at hok
+    simp [newVar_ok] at hok
+    have := needVar_ok_mono hok.1.1
+    simp at this
+  | false =>
+    rw [lookupVar_eq hc] at hok
+    cases hf : findSym M.scopes v with
+    | some xv =>
+      simp only [hf] at hok
+      have hS : (needVar fc sv M).2.ok = true := by simp at hok; exact hok.1
+      obtain ⟨y, hfy, hny⟩ := needVar_ok hS hsv
+      exact ⟨y, hfy, .inl ⟨xv, rfl, by simp [fePre, hg, lookupVar_eq hc, hf, hny]⟩⟩
+    | none =>
+      simp only [hf, hs] at hok
+      have hS : (needVar fc sv M).2.ok = true := by simp [newVar_ok] at hok; exact hok.1.1
+      obtain ⟨y, hfy, hny⟩ := needVar_ok hS hsv
+      exact ⟨y, hfy, .inr ⟨rfl, by simp [fePre, hg, lookupVar_eq hc, hf, hs, hny]⟩⟩
+
+theorem fePre_ok_mono {fc : FCtx} {v sv : String} {M : St} (hok : (fePre fc v sv M).1.2.ok = true) (hv : v ≠ "self")
+    (hsv : sv ≠ "self") : M.ok = true := by
+  obtain ⟨y, _, h | h⟩ := fePre_cases hok hv hsv
+  · obtain ⟨xv, _, he⟩ := h
+    rw [he] at hok; simp at hok; exact hok.1
+  · rw [h.2] at hok; simp [newVar_ok] at hok; exact hok.1.1
+
 attribute [local irreducible] buildStmt buildStmts in
 mutual
 theorem buildStmt_ok_mono_core (fc : FCtx) : ∀ (s : Stmt) (prev : Option Nat) (st : St), coreS s = true →
@@ -997,7 +1059,14 @@ theorem buildStmt_ok_mono_core (fc : FCtx) : ∀ (s : Stmt) (prev : Option Nat) 
   | .selFromW c v kl w, prev, st, hc, h => by simp [coreS, coreS0] at hc
   | .selRel c v hd ch, prev, st, hc, h => by simp [coreS, coreS0] at hc
   | .selRelW c v hd ch w, prev, st, hc, h => by simp [coreS, coreS0] at hc
-  | .forEach v sv b, prev, st, hc, h => by simp [coreS, coreS0] at hc
+  | .forEach v sv b, prev, st, hc, h => by
+    simp only [coreS, Bool.and_eq_true, bne_iff_ne, ne_eq] at hc
+    rw [buildStmt_forEach] at h
+    simp only [new_ok, popScope_ok] at h
+    have h1 := buildStmts_ok_mono_core fc b none _ hc.2 h
+    simp only [pushScope_ok, new_ok] at h1
+    have := fePre_ok_mono h1 hc.1.1 hc.1.2
+    simp at this; exact this.1
   | .if_ e b .nil .none, prev, st, hc, h => by
     simp only [coreS, Bool.and_eq_true] at hc
     simp only [buildStmt, buildElifs, buildElse, withBlock, new_ok, popScope_ok] at h
@@ -1114,7 +1183,7 @@ theorem isElifOrElse_false {q : FlatPop} {s : Nat} {row : Row} (h : smtSub q s =
 
 theorem one_le_szB : ∀ b : Block, 1 ≤ szB b
   | .nil => by simp [szB]
-  | .cons s r => by simp [szB]
+  | .cons s r => by simp only [szB]; omega
 
 theorem firstStmt_some {q : FlatPop} {kb : Nat} (hrow : q[kb + 1]? = some (.smt kb none))
     (hne : isElifOrElse q (kb + 1) = false)
@@ -1174,9 +1243,10 @@ theorem blockStmt_spec {fc : FCtx} {prev : Option Nat} {s : Stmt} {b : Block} {s
     (hinv : Inv st) (hok : (buildStmt fc prev s st).2.ok = true)
     (hdE' : V.pop = st.pop ++ (.smt (curBlkD st.scopes) prev :: dE))
     (hplain : ∀ x ∈ dE, x.smtOf = none ∧ skeys x = [])
-    (hVts : TS V.pop) (hVsym : SymOK V) (hVsc : V.scopes = st.scopes) (hVok : V.ok = true → st.ok = true)
+    (hVts : TS V.pop) (hVsym : SymOK V) (hVcb : curBlk V.scopes = curBlk st.scopes)
+    (hVtl : V.scopes.tail = st.scopes.tail) (hVok : V.ok = true → st.ok = true)
     (hmk : (mk V.pop.length).smtOf = some st.pop.length ∧ skeys (mk V.pop.length) = [] ∧ (mk V.pop.length).valOf = none)
-    (hsz1 : szS s ≤ dE.length + szB b + 1) (hsz2 : szB b + 2 ≤ szS s)
+    (hsz1 : szS s ≤ dE.length + szB b + 2) (hsz2 : szB b + 2 ≤ szS s)
     (hM : ∀ st' : St, (buildStmts fc none b st').ok = true → st'.ok = true)
     (hC : ∀ st' : St, Inv st' → (buildStmts fc none b st').ok = true → ChainSpec fc none b st')
     (hprint : ∀ (rest : List Row) (f : Nat), szS s ≤ f + 1 → (∀ x ∈ rest, ∀ k ∈ ikeys x, k ≠ st.pop.length) →
@@ -1266,8 +1336,8 @@ theorem blockStmt_spec {fc : FCtx} {prev : Option Nat} {s : Stmt} {b : Block} {s
     simp only [new_pop, popScope_pop] at hx
     rw [List.getElem?_append_left hj] at hx
     exact hnone x (List.mem_of_getElem? hx)
-  have hFsc : ((popScope (buildStmts fc none b K)).new (mk V.pop.length)).2.scopes = st.scopes := by
-    simp [C.shape.2, hKsc, hVsc]
+  have hFsc : ((popScope (buildStmts fc none b K)).new (mk V.pop.length)).2.scopes = V.scopes := by
+    simp [C.shape.2, hKsc]
   have hregen : ∀ (ext : List Row) (fuel : Nat),
       FreshS st.pop.length ((popScope (buildStmts fc none b K)).new (mk V.pop.length)).2.pop.length ext →
       szS (s) ≤ fuel →
@@ -1378,12 +1448,12 @@ theorem blockStmt_spec {fc : FCtx} {prev : Option Nat} {s : Stmt} {b : Block} {s
         fun k hk => (by rw [hmkik] at hk; cases hk)⟩
   · rw [hb]; exact hTS
   · rw [hb]
-    exact hVsym.mono (hFsc.trans hVsc.symm) (d := [Row.blk false] ++ dC ++ [mk V.pop.length])
+    exact hVsym.mono hFsc (d := [Row.blk false] ++ dC ++ [mk V.pop.length])
       (by simp [hdC, hKpop])
   · rw [hb]
-    refine ⟨b0, by rw [hFsc]; exact hb0, ?_⟩
+    refine ⟨b0, by rw [hFsc, hVcb]; exact hb0, ?_⟩
     rw [hP]; simp; omega
-  · rw [hb]; rw [hFsc]; exact ⟨rfl, rfl⟩
+  · rw [hb]; rw [hFsc]; exact ⟨hVcb, hVtl⟩
   · intro ext; rw [hb]; exact ⟨_, hfind ext, hmkik⟩
   · intro ext fuel hfr hf; rw [hb] at hfr ⊢; exact hregen ext fuel hfr hf
   · intro ext i b' p hi hge hlt
@@ -1438,7 +1508,8 @@ theorem while_spec {fc : FCtx} {prev : Option Nat} {e : Expr} {b : Block} {st : 
   apply blockStmt_spec (buildExpr fc e (newSmt prev st).2).2
     (fun k => .whl st.pop.length k (buildExpr fc e (newSmt prev st).2).1) dE hb hinv hok
     (by rw [hdE]; simp) (expr_rows_plain (fc := fc) (e := e) (st := st) hoE) (hts0.expr E)
-    (E.symOK (newSmt_sym hinv)) (by rw [E.scopes]; simp) (fun h => by have := E.ok0; simp at this; exact this.1)
+    (E.symOK (newSmt_sym hinv)) (by rw [E.scopes]; simp) (by rw [E.scopes]; simp)
+    (fun h => by have := E.ok0; simp at this; exact this.1)
     ⟨rfl, rfl, rfl⟩ (by simp [szS]; omega) (by simp [szS]) hM hC
   intro rest f hf _ hs hblk
   simp only [szS] at hf
@@ -1486,7 +1557,8 @@ theorem if_spec {fc : FCtx} {prev : Option Nat} {e : Expr} {b : Block} {st : St}
   apply blockStmt_spec (buildExpr fc e (newSmt prev st).2).2
     (fun k => .if_ st.pop.length k (buildExpr fc e (newSmt prev st).2).1) dE hb hinv hok
     hVpop hplain (hts0.expr E)
-    (E.symOK (newSmt_sym hinv)) (by rw [E.scopes]; simp) (fun h => by have := E.ok0; simp at this; exact this.1)
+    (E.symOK (newSmt_sym hinv)) (by rw [E.scopes]; simp) (by rw [E.scopes]; simp)
+    (fun h => by have := E.ok0; simp at this; exact this.1)
     ⟨rfl, rfl, rfl⟩ (by simp [szS]; omega) (by simp [szS]) hM hC
   intro rest f hf hik hs hblk
   simp only [szS] at hf
@@ -1511,6 +1583,65 @@ theorem if_spec {fc : FCtx} {prev : Option Nat} {e : Expr} {b : Block} {st : St}
     · exact hik x h k hk
   obtain ⟨h1, h2⟩ := no_clauses hnc
   simp only [regenSmt, hs, genStmt, this, hblk, h1, h2, regenElifs, genElifs, genElse]
+
+/-- `for each`: ACT_SMT, the loop variable (visible, or V_VAR + V_INT), a new ACT_BLK and its statement list, ACT_FOR -/
+theorem forEach_spec {fc : FCtx} {prev : Option Nat} {v sv : String} {b : Block} {st : St} (hv : v ≠ "self")
+    (hsv : sv ≠ "self") (hinv : Inv st) (hprev : ∀ k, prev = some k → k < st.pop.length)
+    (hok : (buildStmt fc prev (.forEach v sv b) st).2.ok = true)
+    (hM : ∀ st' : St, (buildStmts fc none b st').ok = true → st'.ok = true)
+    (hC : ∀ st' : St, Inv st' → (buildStmts fc none b st').ok = true → ChainSpec fc none b st') :
+    StmtSpec fc prev (.forEach v sv b) st := by
+  have hb := buildStmt_forEach fc prev v sv b st
+  have hPok : (fePre fc v sv (newSmt prev st).2).1.2.ok = true := by
+    have h1 : (buildStmts fc none b (pushScope (.blk (fePre fc v sv (newSmt prev st).2).1.2.pop.length)
+        ((fePre fc v sv (newSmt prev st).2).1.2.new (.blk false)).2)).ok = true := by rw [hb] at hok; simpa using hok
+    simpa using hM _ h1
+  have hts0 := newSmt_ts hinv hprev
+  have hsym0 := newSmt_sym (prev := prev) hinv
+  obtain ⟨b0, hb0, hb0lt⟩ := hinv.blk
+  have hprint : ∀ (V : St) (xid y : Nat) (kl : String), SymOK V → findSym V.scopes v = some xid →
+      findSym V.scopes sv = some y →
+      ∀ (rest : List Row) (f : Nat), szS (.forEach v sv b) ≤ f + 1 → (∀ x ∈ rest, ∀ k ∈ ikeys x, k ≠ st.pop.length) →
+      smtSub (V.pop ++ rest) st.pop.length = some (.for_ st.pop.length V.pop.length xid y kl) →
+      regenBlk (V.pop ++ rest) f V.pop.length = genBlock b →
+      regenSmt (V.pop ++ rest) (f + 1) st.pop.length = genStmt (.forEach v sv b) := by
+    intro V xid y kl hVs hfx hfy rest f _ _ hs hblk
+    obtain ⟨bx, hbx⟩ := sym_row hVs hfx rest
+    obtain ⟨by', hby⟩ := sym_row hVs hfy rest
+    simp only [regenSmt, hs, genStmt, regenVar_of hbx hv, regenVar_of hby hsv, hblk]
+    simp
+  obtain ⟨y, hfy, h | h⟩ := fePre_cases hPok hv hsv
+  · obtain ⟨xv, hfx, he⟩ := h
+    rw [he] at hb hPok
+    simp only [] at hb
+    have hVsym : SymOK ((newSmt prev st).2.guard (setClass (newSmt prev st).2.pop y).isSome) :=
+      hsym0.mono (by simp) (d := []) (by simp)
+    exact blockStmt_spec _ (fun k => .for_ st.pop.length k xv y ((setClass (newSmt prev st).2.pop y).getD "")) [] hb hinv hok
+      (by simp) (by simp) (by simpa using hts0) hVsym (by simp) (by simp) (fun h => by simp at h; exact h.1.1)
+      ⟨rfl, rfl, rfl⟩ (by simp [szS]) (by simp [szS]) hM hC
+      (hprint _ xv y _ hVsym (by simpa using hfx) (by simpa using hfy))
+  · obtain ⟨hfx, he⟩ := h
+    rw [he] at hb hPok
+    simp only [newVar_fst, guard_pop] at hb
+    have hne : ((newSmt prev st).2.guard (setClass (newSmt prev st).2.pop y).isSome).scopes ≠ [] := by
+      simp; exact scopes_ne_of_curBlk hb0
+    have hVsym : SymOK (newVar v (fun i => Row.vint i ((setClass (newSmt prev st).2.pop y).getD ""))
+        ((newSmt prev st).2.guard (setClass (newSmt prev st).2.pop y).isSome)).2 :=
+      newVar_sym (hsym0.mono (by simp) (d := []) (by simp)) hne
+    refine blockStmt_spec _ (fun k => .for_ st.pop.length k (newSmt prev st).2.pop.length y
+        ((setClass (newSmt prev st).2.pop y).getD ""))
+      [.var v (curBlkD st.scopes), .vint (st.pop.length + 1) ((setClass (newSmt prev st).2.pop y).getD "")] hb hinv hok
+      (by simp) ?_ (newVar_ts (by simpa using hts0) (fun i => by simp [Row.valOf, Row.smtOf, skeys])) hVsym
+      (by simp [curBlk_install]) (by simp [install_tail]) (fun h => by simp [newVar_ok] at h; exact h.1.1.1)
+      ⟨rfl, rfl, rfl⟩ (by simp [szS]) (by simp [szS]) hM hC ?_
+    · intro x hx
+      simp at hx
+      rcases hx with rfl | rfl <;> simp [Row.smtOf, skeys]
+    · have hsvne : sv ≠ v := by
+        intro h; subst h; simp at hfx hfy; rw [hfx] at hfy; cases hfy
+      refine hprint _ _ y _ hVsym ?_ ?_
+      · rw [newVar_scopes, findSym_install hne]; simp
+      · rw [newVar_scopes, findSym_install hne]; simp [hsvne]; simpa using hfy
 
 attribute [local irreducible] buildStmt buildStmts in
 mutual
@@ -1549,7 +1680,11 @@ theorem buildStmt_spec (fc : FCtx) : ∀ (s : Stmt) (prev : Option Nat) (st : St
   | .selFromW c v kl w, prev, st, hc, hinv, hprev, hok => by simp [coreS, coreS0] at hc
   | .selRel c v hd ch, prev, st, hc, hinv, hprev, hok => by simp [coreS, coreS0] at hc
   | .selRelW c v hd ch w, prev, st, hc, hinv, hprev, hok => by simp [coreS, coreS0] at hc
-  | .forEach v sv b, prev, st, hc, hinv, hprev, hok => by simp [coreS, coreS0] at hc
+  | .forEach v sv b, prev, st, hc, hinv, hprev, hok => by
+    simp only [coreS, Bool.and_eq_true, bne_iff_ne, ne_eq] at hc
+    exact forEach_spec hc.1.1 hc.1.2 hinv hprev hok (fun st' ho => buildStmts_ok_mono_core fc b none st' hc.2 ho)
+      (fun st' hi ho =>
+        buildStmts_spec fc b none st' hc.2 hi (by intro k h; cases h) (okAll_of_ok fc b none st' hc.2 ho))
   | .if_ e b .nil .none, prev, st, hc, hinv, hprev, hok => by
     simp only [coreS, Bool.and_eq_true] at hc
     exact if_spec hc.1 hinv hprev hok (fun st' ho => buildStmts_ok_mono_core fc b none st' hc.2 ho) (fun st' hi ho =>
